@@ -319,7 +319,7 @@ func genTraceConc(t *rapid.T) TProg {
 }
 
 func genMetricConc(t *rapid.T) MProg {
-	p := MProg{Readers: genReaders(t)}
+	p := MProg{Readers: genReaders(t), Prod: genProd(t)}
 	p.Gs = genGs(t, genRawMOp(true))
 	p.Post = rapid.SliceOfN(genRawMOp(false), 0, 8).Draw(t, "post")
 	p.Runs = 2
@@ -329,6 +329,7 @@ func genMetricConc(t *rapid.T) MProg {
 
 func genLogConc(t *rapid.T) LProg {
 	p := LProg{Procs: genProcs(t)}
+	genLogExtras(t, &p)
 	p.Gs = genGs(t, genRawLOp(true))
 	p.Post = rapid.SliceOfN(genRawLOp(false), 0, 8).Draw(t, "post")
 	p.Slow = rapid.IntRange(0, 3).Draw(t, "slow")
